@@ -2,8 +2,11 @@
    Proof on an interleaving model (model/Concurrent.v) - partial: Go memory-model effects beyond
    sequential consistency and scheduler fairness are outside it.  The data-race clause is a finite
    access table decided by vm_compute and compared with the Go race detector's reports. *)
+From Coq Require Import String.
 From Coq Require Import List ZArith Bool Arith.
-From TR Require Import model.Concurrent proofs.ConcurrentProofs.
+From TR Require Import model.Concurrent proofs.ConcurrentProofs model.GoSem model.Ring translated.FrameLoop proofs.TieRing.
+(* constants and wiring read from the Go sources on every run *)
+From TR Require Import proofs.FactsRing.
 Import ListNotations.
 Open Scope Z_scope.
 
@@ -45,3 +48,27 @@ Proof. exact early_request_blank. Qed.
    processor (4), headerInfo (5) are racy - known findings; the ring index and slots are not *)
 Theorem C16_racy_variables : racy_vars = [2; 3; 4; 5]%nat.
 Proof. exact racy_variables. Qed.
+
+(* ---- source tie: the locking discipline the interleaving model assumes, read off
+   motion/frameloop.go as it is in /repo now (coq/translated/FrameLoop.v, regenerated on every run).
+   For every well-formed loop and every meaning [ext] of the calls that leave the translated code:
+   CopyRecent performs exactly  mu.Lock; CreateCopy of the slot BEFORE the current one; mu.Unlock,
+   in this order, and changes nothing in the loop; Move advances the index between mu.Lock and
+   mu.Unlock.  (The model's requester copies slot (cur-1+size) mod size with the lock held; its
+   frame loop moves the index with the lock held.)  Dropping a lock, copying another slot or
+   copying outside the critical section breaks these theorems. *)
+Theorem C16_source_CopyRecent_locked : forall (W : Type) (ext : string -> list arg -> W -> Z * W) fl w d,
+    fl_wf fl ->
+    let w1 := after_ext ext "FrameLoop.mu.Lock" [] w in
+    let rw := ext "Frame.CreateCopy"%string [AFrame (recent d (ring_of fl))] w1 in
+    FrameLoop_CopyRecent ext fl w = Ok (fl, fst rw) (after_ext ext "FrameLoop.mu.Unlock" [] (snd rw)).
+Proof. exact @tie_CopyRecent. Qed.
+
+Theorem C16_source_Move_locked : forall (W : Type) (ext : string -> list arg -> W -> Z * W) fl w d,
+    fl_wf fl ->
+    exists fl', FrameLoop_Move ext fl w =
+                  Ok (fl', current d (ring_of fl'))
+                     (after_ext ext "FrameLoop.mu.Unlock" [] (after_ext ext "FrameLoop.mu.Lock" [] w)) /\
+                ring_of fl' = move (ring_of fl) /\
+                FrameLoop_orderedFrames fl' = FrameLoop_orderedFrames fl /\ fl_wf fl'.
+Proof. exact @tie_Move. Qed.
